@@ -96,6 +96,15 @@ def gen_cases(ctx):
             continue
         if spec["cls"] == "Dense" and rng.random() < 0.3:
             spec["opt"]["kappa"] = rng.choice([1e3, 1e4])
+        if rng.random() < 0.04:
+            # well-conditioned structured operators at a very small / large overall SCALE (eigenvalues around 1e-8 .. 1e4): direct and
+            # eigen-structured solves are scale-free (iterative paths have absolute safeguards and are counted, not judged, there)
+            nn = rng.choice([4, 6, 8])
+            yield dict(scaled=dict(kind=rng.choice(["kron_plus_constant", "kron_plus_constant", "kron_plus_diag", "kron", "dense_plus_diag", "lowrank_plus_diag", "diag", "toeplitz"]),
+                                   s=rng.choice([1e-8, 1e-8, 1e-4, 1e4]), n=nn, batch=rng.choice([[], [2]])),
+                       spec=dict(cls="Scaled", kind="pd", n=nn, m=nn, batch=[], dtype="f64", seed=rng.randrange(1 << 30), opt={}, children=[]),
+                       rhs=rng.choice(["vec", "mat", "batched"]), left=rng.random() < 0.25, cfg=gen_settings(rng), entry="method", cached=None, wrap=None,
+                       rseed=rng.randrange(1 << 30))
         yield dict(spec=spec, rhs=rng.choice(["vec", "mat", "mat1", "batched", "bcast_more"]), left=rng.random() < 0.25,
                    cfg=gen_settings(rng), entry=rng.choice(["method", "method", "torch", "function"]),
                    cached=rng.choice([None, None, None, "cholesky", "root_decomposition", "root_inv_decomposition"]),
@@ -103,16 +112,63 @@ def gen_cases(ctx):
                    rseed=rng.randrange(1 << 30))
 
 
+def _build_scaled(case):
+    """hand-built structured PD operators whose overall scale is s (condition number <= ~30)"""
+    from linear_operator import operators as O
+
+    sc = case["scaled"]
+    kind, s_, n, batch = sc["kind"], sc["s"], sc["n"], sc["batch"]
+    g = torch.Generator().manual_seed(case["rseed"])
+
+    def pd(k, scale):
+        return zoo.pd_matrix(g, k, batch, kappa=4.0, family="uniform") * scale
+
+    def pos(k, scale):
+        return (0.5 + torch.rand(*batch, k, generator=g, dtype=torch.float64)) * scale
+
+    if kind in ("kron_plus_constant", "kron_plus_diag", "kron"):
+        n1 = 2
+        n2 = n // 2
+        a1, a2 = pd(n1, s_ ** 0.5), pd(n2, s_ ** 0.5)
+        K = O.KroneckerProductLinearOperator(O.DenseLinearOperator(a1), O.DenseLinearOperator(a2))
+        Kd = (a1.unsqueeze(-1).unsqueeze(-3) * a2.unsqueeze(-2).unsqueeze(-4)).reshape(*batch, n1 * n2, n1 * n2)
+        if kind == "kron":
+            return K, Kd
+        if kind == "kron_plus_constant":
+            c = pos(1, s_ * 0.1)
+            return K + O.ConstantDiagLinearOperator(c, n1 * n2), Kd + torch.diag_embed(c.expand(*batch, n1 * n2))
+        d = pos(n1 * n2, s_ * 0.3)
+        return K + O.DiagLinearOperator(d), Kd + torch.diag_embed(d)
+    if kind == "dense_plus_diag":
+        a, d = pd(n, s_), pos(n, s_ * 0.3)
+        return O.DenseLinearOperator(a) + O.DiagLinearOperator(d), a + torch.diag_embed(d)
+    if kind == "lowrank_plus_diag":
+        r = torch.randn(*batch, n, 2, generator=g, dtype=torch.float64) * s_ ** 0.5
+        d = pos(n, s_)
+        return O.LowRankRootLinearOperator(r) + O.DiagLinearOperator(d), r @ r.mT + torch.diag_embed(d)
+    if kind == "diag":
+        d = pos(n, s_)
+        return O.DiagLinearOperator(d), torch.diag_embed(d)
+    col = torch.cat([torch.full((*batch, 1), 4.0, dtype=torch.float64), 0.5 * torch.rand(*batch, n - 1, generator=g, dtype=torch.float64)], -1) * s_
+    idx = (torch.arange(n).unsqueeze(0) - torch.arange(n).unsqueeze(1)).abs()
+    return O.ToeplitzLinearOperator(col), col[..., idx]
+
+
 def run_case(case, ctx):
     import linear_operator
     from linear_operator.utils.warnings import NumericalWarning
 
     spec = case["spec"]
-    b = common.try_build(spec, ctx)
-    if b is None:
-        return
+    if case.get("scaled"):
+        spec = dict(spec, batch=list(case["scaled"]["batch"]), cls="Scaled:" + case["scaled"]["kind"])
+        op, dense = _build_scaled(case)
+        ctx.case = case
+    else:
+        b = common.try_build(spec, ctx)
+        if b is None:
+            return
+        op, dense = b.op, b.dense
     rng = random.Random(case["rseed"])
-    op, dense = b.op, b.dense
     n, batch = spec["n"], spec["batch"]
     dt = dense.dtype
     tri = spec["kind"] in ("tril", "triu")
@@ -216,6 +272,10 @@ def run_case(case, ctx):
     eps = torch.finfo(dt).eps
     if cfg.get("linalg_dtype") == "float":
         eps = torch.finfo(torch.float32).eps
+    if case.get("scaled") and (used_cg or used_lanczos):
+        # the iterative kernels carry absolute safeguards (eps = 1e-10 in CG's safe divisions, absolute Lanczos breakdown / jitter levels)
+        ctx.stat("scaled_operator_on_an_iterative_path(not judged)")
+        return
     if used_cg:
         if warned:
             ctx.stat("cg_not_converged(inconclusive)")
